@@ -114,7 +114,15 @@ fn apply_c(v: &mut Vector<Cmplx>, op: &str, t: &mut Toks, cx: &mut Ctx) -> Strin
     match op {
         "conj" => { let r = guarded(|| v.conj()); if let Ok(x) = &r { cx.check((0..before.len()).all(|i| x[i].real.same(&before[i].real) && x[i].imag.same(&(-before[i].imag))), "conj"); } outcome(&r.map(|x| { *v = x; String::new() })) }
         "real" => { let r = guarded(|| v.real()); if let Ok(x) = &r { cx.check((0..before.len()).all(|i| x[i].to_bits() == before[i].real.to_bits()), "real"); } outcome(&r.map(|x| wr_vector(&x))) }
-        "norminf" => { let r = guarded(|| v.norm_inf()); if before.is_empty() { cx.check(r.is_err(), "norm_inf of an empty vector returned a value"); } outcome(&r.map(|x| x.wr())) }
+        "norminf" => { let r = guarded(|| v.norm_inf()); if before.is_empty() { cx.check(r.is_err(), "norm_inf of an empty vector returned a value"); }
+                       else if let Ok(x) = &r { if before.iter().all(|z| z.real.is_finite() && z.imag.is_finite()) {
+                           let mx = before.iter().map(|z| (z.real * z.real + z.imag * z.imag).sqrt()).fold(0.0, f64::max);
+                           cx.check((*x - mx).abs() <= 4.0 * f64::EPSILON * mx, "complex norm_inf != max |z_i|"); } }
+                       outcome(&r.map(|x| x.wr())) }
+        "abs" => { let r = guarded(|| v.abs());
+                   if let Ok(x) = &r { cx.check(x.size() == before.len() && (0..before.len()).all(|i| { let z = before[i]; if !(z.real.is_finite() && z.imag.is_finite()) { return true; }
+                       let m = (z.real * z.real + z.imag * z.imag).sqrt(); x[i].imag == 0.0 && (x[i].real - m).abs() <= 4.0 * f64::EPSILON * m }), "complex abs != (|z_i|, 0)"); }
+                   outcome(&r.map(|x| wr_vector(&x))) }
         _ => apply(v, op, t, cx).unwrap_or_else(|| panic!("HARNESS: unknown vector op {}", op)),
     }
 }
@@ -264,6 +272,13 @@ pub fn gen(rng: &mut Rng, tier: Tier, out: &mut Vec<String>) {
     for i in 0..nh { let nops = 1 + rng.below(60); out.push(gen_hist::<Q>(rng, nops, if i % 3 == 0 { 20 } else { 4 }, if i % 10 == 0 { 64 } else { 10 })); }
     for _ in 0..nh / 3 { let nops = 1 + rng.below(30); out.push(gen_hist::<f64>(rng, nops, 5, 12)); }
     for _ in 0..nh / 6 { let nops = 1 + rng.below(20); out.push(gen_hist::<Cmplx>(rng, nops, 5, 8)); }
+    // complex vectors of 3..10 entries of mixed sizes: the largest modulus sits at a random position (first, middle, last)
+    for _ in 0..nh / 4 {
+        let n = 3 + rng.below(8);
+        let big = rng.below(n);
+        let v: Vec<Cmplx> = (0..n).map(|i| { let z = Cmplx::gen(rng, 10, 0); if i == big { Cmplx::new(z.real * 16.0 + 32.0, z.imag * 16.0) } else { z } }).collect();
+        out.push(format!("vec_hist c {} 4 norminf abs neg norminf", wr_vec(&v)));
+    }
     for _ in 0..nh / 3 {
         let big = rng.chance(10); let n = rng.below(if big { 64 } else { 9 });
         let kind = rng.below(4);
